@@ -51,8 +51,14 @@ func (c Collection) TryEqual(other Collection) (bool, bool) {
 		if okOne != okTwo {
 			return false, true
 		}
-		if !okOne && !proto.Equal(c[i].(fhir.Base), other[i].(fhir.Base)) {
-			return false, true
+		if !okOne {
+			// (a custom function may hand back an item that is neither a System value nor
+			// a FHIR element, nil included: such items are equal to nothing)
+			one, isOne := c[i].(fhir.Base)
+			two, isTwo := other[i].(fhir.Base)
+			if !isOne || !isTwo || !proto.Equal(one, two) {
+				return false, true
+			}
 		}
 		if !okOne {
 			continue // structurally equal complex elements: keep comparing the remaining pairs
